@@ -407,6 +407,136 @@ func runSeq(setup string, vs []Val) string {
 	})
 }
 
+// runMulti: many values through ONE writer and a single Flush at the end; the flushed bytes
+func runMulti(setup string, vs []Val) string {
+	return lib.Guard(func() string {
+		var w bufiox.Writer
+		sink := &recSink{}
+		var target []byte
+		isBytes := setup[0] == 'b'
+		if isBytes {
+			c, _ := strconv.Atoi(setup[1:])
+			target = make([]byte, 0, c)
+			w = bufiox.NewBytesWriter(&target)
+		} else {
+			w = bufiox.NewDefaultWriter(sink)
+		}
+		bw := thrift.NewBufferWriter(w)
+		for _, v := range vs {
+			if err := streamWrite(bw, v); err != nil {
+				return "err " + lib.ErrStr(err)
+			}
+		}
+		if err := w.Flush(); err != nil {
+			return "err " + lib.ErrStr(err)
+		}
+		if isBytes {
+			return "ok " + lib.Hex(target)
+		}
+		var all []byte
+		for _, c := range sink.chunks {
+			all = append(all, c...)
+		}
+		return "ok " + lib.Hex(all)
+	})
+}
+
+func seqFields(op, setup string, vs []Val) []string {
+	f := []string{"wire", op, setup}
+	for i, v := range vs {
+		if i > 0 {
+			f = append(f, "/")
+		}
+		f = append(f, v.Toks()...)
+	}
+	return f
+}
+
+func opMulti(setup string, vs []Val) {
+	res := runMulti(setup, vs)
+	em.Count("w-multi:" + setup[:1] + ":" + firstTok(res))
+	em.Line(res, seqFields("w-multi", setup, vs)...)
+}
+
+// genMulti: field+string pairs (and a few scalars) totalling 12–40 KiB before a single Flush, so that the
+// writer's buffer grows at least three times within one flush epoch
+func genMulti(r *lib.Rng, n int) {
+	for i := 0; i < n; i++ {
+		total := r.Range(12<<10, 40<<10)
+		var vs []Val
+		sz := 0
+		for sz < total {
+			L := r.Pick(r.Range(1000, 4000), r.Range(2500, 3500), r.Range(3000, 6000), r.Intn(200))
+			vs = append(vs, Val{K: "field", T: 11, I: int64(len(vs)/2 + 1)})
+			vs = append(vs, Val{K: pickS(r, "string", "binary"), S: content(r, L)})
+			sz += 7 + L
+			if r.Chance(1, 4) {
+				vs = append(vs, Val{K: "i64", I: int64(r.U64())})
+				sz += 8
+			}
+		}
+		vs = append(vs, Val{K: "stop"})
+		em.Count(fmt.Sprintf("w-multi:KiB:%d", sz>>12<<2))
+		opMulti("d", vs)
+		opMulti(fmt.Sprintf("b%d", r.Pick(0, 16, 100, 4096)), vs)
+	}
+}
+
+// runTwo: ReadString, Release, ReadString over one stream, then the FIRST string again: a value that
+// has been handed out must not change when the reader reuses its buffer
+func runTwo(b []byte, src string) string {
+	return lib.Guard(func() string {
+		rd := mkReader(b, src)
+		r := thrift.NewBufferReader(rd)
+		s1, err := r.ReadString()
+		if err != nil {
+			return "err1 " + lib.ErrStr(err)
+		}
+		h1 := lib.Hex([]byte(s1)) // a copy of what was returned, taken now
+		rd.Release(nil)
+		s2, err := r.ReadString()
+		if err != nil {
+			return "err2 " + lib.ErrStr(err)
+		}
+		h2 := lib.Hex([]byte(s2))
+		return fmt.Sprintf("ok %s %s %s %d", h1, h2, lib.Hex([]byte(s1)), r.Readn())
+	})
+}
+
+func opTwo(b []byte, src string) {
+	if declared("string", b) > allocCap {
+		return
+	}
+	if len(b) >= 4 {
+		n := int(binary.BigEndian.Uint32(b))
+		if n < len(b)-8 && declared("string", b[4+n:]) > allocCap {
+			return
+		}
+	}
+	res := runTwo(b, src)
+	em.Count("r-two:" + firstTwo(res))
+	em.Line(res, "wire", "r-two", lib.Hex(b), src)
+}
+
+func genTwo(r *lib.Rng, n int) {
+	for i := 0; i < n; i++ {
+		s1 := content(r, r.Pick(1, 5, 16, 40, 200, r.Intn(600)+1))
+		s2 := content(r, r.Pick(1, 5, 16, 40, 200, r.Intn(600)+1, len(s1)))
+		b := append(refEnc(Val{K: "string", S: s1}), refEnc(Val{K: "string", S: s2})...)
+		b = append(b, r.Bytes(r.Pick(0, 0, 3, 40))...)
+		// everything arrives in the first read(s), so that Release has unread bytes to move to the front
+		opTwo(b, lib.Script{{K: 1 << 20, Err: -1}, {K: 1 << 20, Err: -1}}.String())
+		opTwo(b, lib.Script{{K: 1 << 20, Err: 0}}.String())
+		opTwo(b, fmt.Sprintf("b%d", len(b)+r.Pick(0, 7)))
+		opTwo(b, scriptFor(r, len(b), true).String())
+		opTwo(b, scriptFor(r, len(b), false).String())
+		if i%4 == 0 {
+			cut := r.Intn(len(b))
+			opTwo(b[:cut], scriptFor(r, cut, i%8 == 0).String())
+		}
+	}
+}
+
 func opSeq(setup string, vs []Val) {
 	f := []string{"wire", "w-seq", setup}
 	for i, v := range vs {
@@ -1141,6 +1271,8 @@ func genC01(o *lib.Opts, r *lib.Rng) {
 	}
 	bundle(r, "stop", Val{K: "stop"}, full)
 	genSeqs(r, n/2+20, false)
+	genMulti(r, n/10+10)
+	genTwo(r, n/2+30)
 	// field ids: boundaries and single bits
 	for _, p := range i64Patterns(16) {
 		bundle(r, "field-id", Val{K: "field", T: r.Pick(2, 8, 11, 12, 15), I: p}, lite)
@@ -1419,7 +1551,9 @@ func replay(lines [][]string) {
 			if v, ok := ParseVal(f[3:]); ok {
 				em.Line(runStreamWrite(f[2], v), f...)
 			}
-		case f[0] == "wire" && f[1] == "w-seq":
+		case f[0] == "wire" && f[1] == "r-two" && len(f) == 4:
+			em.Line(runTwo(lib.UnHex(f[2]), f[3]), f...)
+		case f[0] == "wire" && (f[1] == "w-seq" || f[1] == "w-multi"):
 			var vs []Val
 			ok := true
 			cur := []string{}
@@ -1433,8 +1567,10 @@ func replay(lines [][]string) {
 					cur = append(cur, t)
 				}
 			}
-			if ok {
+			if ok && f[1] == "w-seq" {
 				em.Line(runSeq(f[2], vs), f...)
+			} else if ok {
+				em.Line(runMulti(f[2], vs), f...)
 			}
 		case f[0] == "wire" && f[1] == "len":
 			if v, ok := ParseVal(f[2:]); ok {
